@@ -1,6 +1,7 @@
 package sim
 
 import (
+	"time"
 	"unsafe"
 
 	"github.com/ozanh/ugo"
@@ -65,4 +66,21 @@ func RunCapped(vm *ugo.VM, globals ugo.Object, cap int64, args ...ugo.Object) (r
 	defer restore()
 	ret, err = vm.Run(globals, args...)
 	return ret, err, sc.Steps, sc.Capped
+}
+
+// Watchdog runs fn on its own goroutine and reports whether it finished within
+// d. A run that does not finish is blocked for real (no instruction executes,
+// so the step cap cannot end it); the process must not be reused afterwards.
+func Watchdog(d time.Duration, fn func()) (finished bool) {
+	done := make(chan struct{})
+	go func() {
+		defer close(done)
+		fn()
+	}()
+	select {
+	case <-done:
+		return true
+	case <-time.After(d):
+		return false
+	}
 }
